@@ -389,3 +389,53 @@ def check(run, prog, tier):
                        "error() at line %s reports the full control stack without marking it as a limit error: catch() one level up catches it and evaluation continues at MaxCallDepth" % n.get("l"), f.file, n.get("l"), f.name,
                        what="%s raises a catchable error when the control stack is full" % f.name)
     run.need(nref >= 1, "callers that raise on a refused save_context() (found %d)" % nref)
+
+    # ---- C04-g the limit-error state kept across a call that re-enters the error path lives in the activation
+    run.rule("C04-g", "set_error_state(V) with V read from static storage S: no store to S in the same activation is separated from this read by a call that can (transitively, through LPC code and error()) reach a writer of S - a nested activation overwrites S and the outer one restores the nested error's state (no limit flag), so do_catch() lets catch() swallow the limit error; values kept in automatic storage are not affected", 2)
+    cg = callgraph.CallGraph(prog)
+    ng = 0
+    for f in sorted(prog.functions(), key=lambda x: (x.file, x.line)):
+        for b, i, n in f.calls("set_error_state"):
+            args = n.get("args") or []
+            if not args or const_val(args[0]) is not None:
+                continue
+            refs = [x for x in walk(args[0]) if x.get("k") == "Ref" and x.get("d") in ("static", "global", "slocal", "local", "param")]
+            if not refs:
+                continue
+            ng += 1
+            run.saw(f)
+            nth = sum(1 for b0, i0, n0 in f.calls("set_error_state") if (n0.get("l"), b0.id, i0) < (n.get("l"), b.id, i) and show((n0.get("args") or [{}])[0]) == show(args[0]))
+            inst = "restore:%s:%s:%s:%d" % (rel(f.file), f.name, show(args[0])[:30], nth)
+            shared = [x for x in refs if x.get("d") in ("static", "global", "slocal")]
+            if not shared:
+                run.ob("C04-g", inst, True, "set_error_state(%s): the value is kept in the activation (automatic storage)" % show(args[0])[:40], f.file, n.get("l"), f.name)
+                continue
+            bad = None
+            for sref in shared:
+                S = sref.get("n")
+                def is_store(x, S=S):
+                    return x.get("k") == "Asg" and strip(x["L"]).get("k") == "Ref" and strip(x["L"]).get("n") == S and strip(x["L"]).get("d") in ("static", "global", "slocal")
+                writers = {g.name for g in prog.functions() if any(is_store(x) for _, _, x in g.nodes())}
+                reach_w = cg.reaches(writers)
+                stores = [(b1, i1) for b1, i1, x in f.nodes() if is_store(x)]
+                for b1, i1 in stores:
+                    after_store = cfgq.reach_set(f, b1.live_succ())
+                    for b2, i2, c in f.calls():
+                        if c is n or not (cg.callees_of_call(f, c) & reach_w):
+                            continue
+                        # store -> call
+                        if not ((b2.id == b1.id and i2 > i1) or b2.id in after_store):
+                            continue
+                        # call -> read
+                        after_call = cfgq.reach_set(f, b2.live_succ())
+                        if (b.id == b2.id and i > i2) or b.id in after_call:
+                            bad = "`%s` is stored at line %s, %s() at line %s can re-enter %s (writers of %s: %s), and the value read back at line %s is the nested activation's" % (
+                                S, f.blocks[b1.id].el[i1].get("l"), c.get("fn") or "(indirect)", c.get("l"), "/".join(sorted(writers & reach_w))[:60], S, sorted(writers), n.get("l"))
+                            break
+                    if bad:
+                        break
+                if bad:
+                    break
+            run.ob("C04-g", inst, not bad, "set_error_state(%s): no re-entering call between a store in this activation and the read" % show(args[0])[:40] if not bad else bad, f.file, n.get("l"), f.name,
+                   what="%s restores the limit-error state from storage that a nested error overwrites: catch() swallows the limit error (%s)" % (f.name, bad))
+    run.need(ng >= 2, "set_error_state() calls with a saved value (found %d)" % ng)
